@@ -626,6 +626,29 @@ static void p7_run(uint64_t idx, vh_rng_t * rng) {
         }
         vh_ctx_free(v);
     }
+    /* two messages of EQUAL byte length but different shape in ONE input call (and in the other order): what was recognised for the first
+     * (header extent, data extent, item count) must not be applied to the second just because it lies at the same place with the same length */
+    {
+        size_t tl = (b.len >= 2 && b.p[b.len - 2] == '\r') ? 2 : 1, hl = 7; /* "DATA:X " */
+        if (b.len >= hl + 2 + tl) {
+            vh_buf_t u2 = { 0, 0, 0 }, both = { 0, 0, 0 }; size_t fill = b.len - hl - 2 - tl, j; int order;
+            vh_buf_adds(&u2, "data:x "); vh_buf_addc(&u2, '\''); for (j = 0; j < fill; j++) vh_buf_addc(&u2, j % 5 == 2 ? ',' : (char) ('a' + j % 26)); vh_buf_addc(&u2, '\''); vh_buf_add(&u2, b.p + b.len - tl, tl);
+            for (order = 0; order < 2; order++) {
+                vh_buf_reset(&both);
+                if (order) { vh_buf_add(&both, u2.p, u2.len); vh_buf_add(&both, b.p, b.len); } else { vh_buf_add(&both, b.p, b.len); vh_buf_add(&both, u2.p, u2.len); }
+                v = vh_ctx_new(p7_cmds, both.len + 8, 4, 64); v->log_enabled = 0;
+                p7_inv = p7_items = 0;
+                vh_input(v, both.p, both.len);
+                vh_eval(1);
+                if (p7_inv != 2 || p7_items != N + 1 || v->nerrs || v->ctx->buffer.position != 0)
+                    vh_violation("C13:wellformed-units-of-equal-length-in-one-call", "\"%s\" in one input call: handler ran %d time(s) and saw %d item(s) in all (expected 2 and %d), %d error(s) (first %d)",
+                                 vh_esc(both.p, both.len), p7_inv, p7_items, N + 1, v->nerrs, v->nerrs ? v->errs[0] : 0);
+                vh_ctx_free(v);
+            }
+            vh_count("input.two_messages_of_equal_length_in_one_call", 1);
+            vh_buf_free(&u2); vh_buf_free(&both);
+        }
+    }
     vh_count("input.units_cut_in_two_at_every_position", 1);
     vh_distinct(vh_hash(b.p, b.len, 77));
     vh_buf_free(&b);
